@@ -131,3 +131,35 @@ Proof.
   induction (sort_by sort_key (cli ++ file)) as [|x l IH]; simpl; [reflexivity|].
   destruct (is_applicable_to x mp); simpl; rewrite IH; reflexivity.
 Qed.
+
+(* 7. `is_error_code_enabled_anywhere` (translated: Gen.Options.enabled_anywhere) is an upper bound of the
+   per-module answers: a code that the lookup enables for SOME module path is enabled "anywhere".
+   (NameCheckVisitor._run_on_files uses the answer to decide whether a whole-run checker is switched on.) *)
+Lemma find_app_first {A} (p : A -> bool) (l1 l2 : list A) :
+  find p (l1 ++ l2) = match find p l1 with Some x => Some x | None => find p l2 end.
+Proof. induction l1 as [|x l IH]; cbn [app find]; [reflexivity|]. destruct (p x); [reflexivity|exact IH]. Qed.
+
+Theorem enabled_somewhere_enabled_anywhere (d : bool) (stored : list (inst bool)) mp :
+  get_value_for_no_default d stored mp = Some true -> enabled_anywhere d stored = true.
+Proof.
+  intros H. unfold enabled_anywhere.
+  destruct (existsb (fun instance : inst bool => value instance) stored) eqn:E; cbn; [reflexivity|].
+  unfold get_value_for_no_default, get_value_from_instances, for_first in H.
+  rewrite find_app_first in H.
+  destruct (find (fun instance : inst bool => is_applicable_to instance mp) stored) as [i|] eqn:F.
+  - apply find_some in F. destruct F as [Hin _]. injection H as Hv.
+    assert (X : existsb (fun instance : inst bool => value instance) stored = true)
+      by (apply existsb_exists; exists i; split; assumption).
+    congruence.
+  - cbn [find] in H. destruct (is_applicable_to (mk_inst d [] false 0%Z) mp); [|discriminate].
+    injection H as Hd. exact Hd.
+Qed.
+
+(* ... and it claims nothing beyond the explicit settings and the default *)
+Theorem enabled_anywhere_sources (d : bool) (stored : list (inst bool)) :
+  enabled_anywhere d stored = true -> d = true \/ exists i, In i stored /\ value i = true.
+Proof.
+  unfold enabled_anywhere. destruct (existsb (fun instance : inst bool => value instance) stored) eqn:E; cbn.
+  - intros _. right. apply existsb_exists in E. exact E.
+  - intros H. left. exact H.
+Qed.
